@@ -2,18 +2,18 @@
 #define HX_HAS_ROTATION 1
 #include "generic.h"
 namespace hx {
-template <> struct Extra<manif::SO2d> {
+template <> struct Extra<manif::SO2<HX_SC>> {
   static bool run(const Req& r, Resp& R) {
     const auto& a = r.a;
-    if (r.op == "ctor_angle" && a.size() == 1) { manif::SO2d g(a[0]); pushM(R.out, g.coeffs()); return true; }
-    if (r.op == "angle" && a.size() == 2) { Operand<manif::SO2d, 'o'> x(a.data()); R.out.push_back(x.get().angle()); return true; }
+    if (r.op == "ctor_angle" && a.size() == 1) { manif::SO2<HX_SC> g((HX_SC)a[0]); pushM(R.out, g.coeffs()); return true; }
+    if (r.op == "angle" && a.size() == 2) { Operand<manif::SO2<HX_SC>, 'o'> x(a.data()); R.out.push_back(x.get().angle()); return true; }
     if (r.op == "accessors" && a.size() == 2) {
-      Operand<manif::SO2d, 'o'> x(a.data());
+      Operand<manif::SO2<HX_SC>, 'o'> x(a.data());
       R.out.push_back(x.get().real()); R.out.push_back(x.get().imag()); R.out.push_back(x.get().angle());
       return true;
     }
     return false;
   }
 };
-void run_SO2(const Req& r, Resp& R) { run<manif::SO2d>(r, R); }
+void run_SO2(const Req& r, Resp& R) { run<manif::SO2<HX_SC>>(r, R); }
 }
